@@ -11,7 +11,7 @@ from .values import (SV, CV, XV, Opaque, EngineError, to_z, truth_z, ite, arith,
                      F_arctan2)
 from .interp import Native, Namespace, PyRaise, CannotMerge, FuncVal
 from . import tabletheory
-from .arrays import (Arr, Series, Table, Mat, Space, MultiArr, elementwise, any_, all_, is_scalar, scalar_ite, scalar_isnan,
+from .arrays import (require_same_mask, Arr, Series, Table, Mat, Space, MultiArr, elementwise, any_, all_, is_scalar, scalar_ite, scalar_isnan,
                      map_generic, subst, _mask_and, _is_boolish, FilteredTable, Cols, _key, _mask_eq)
 
 
@@ -373,6 +373,7 @@ def make_numpy(it):
         "min": nat(lambda it, x, axis=None, **k: _reduce2d(it, x, axis, s_min, "min"), name="min"),
         "amax": nat(lambda it, x, axis=None, **k: _reduce2d(it, x, axis, s_max, "max"), name="amax"),
         "isin": nat(np_isin, name="isin"), "in1d": nat(np_isin, name="in1d"),
+        "arange": nat(np_arange, name="arange"),
         "nonzero": nat(np_nonzero, name="nonzero"),
         "flatnonzero": nat(lambda it, x: Arr(_arr(x).space, SV(_arr(x).space.i), _mask_and(_arr(x).mask, truth_z(_arr(x).e))), name="flatnonzero"),
         "hstack": nat(hstack, name="hstack"), "concatenate": nat(hstack, name="concatenate"),
@@ -447,6 +448,20 @@ def rows_attr(it, r, name):
 
 def _no_reduce(name):
     raise EngineError(f"reduction np.{name} over rows is outside the generic-index fragment")
+
+
+def np_arange(it, *a, **k):
+    from .arrays import SegRows, seg_between
+    if len(a) == 2 and all(type(x).__name__ == "SegBound" for x in a):
+        sg = seg_between(a[0], a[1])
+        if sg is not None:
+            return SegRows(sg)
+    if any(is_sym(x) or isinstance(x, Opaque) for x in a):
+        if getattr(it, "lenient_numpy", False):
+            return Opaque("np.arange(...)")
+        raise EngineError("np.arange over symbolic bounds")
+    import numpy as real_np
+    return real_np.arange(*a, **k)
 
 
 def np_nonzero(it, c):
@@ -733,6 +748,22 @@ class LabelIndexer:
             if cur is None:
                 cur = XV(0, True)
             t.write(it, col, scalar_ite(SV(m), v, cur), via="loc")
+            return
+        if isinstance(key, Arr) and not _is_boolish(key.e) and key.space is t.space and is_sym(key.e) and is_sym(t.index_e) and \
+                z3.eq(to_z(key.e), to_z(t.index_e)):
+            # .loc[<labels of the rows selected by a mask>, col] = values : a masked store into the table's own rows
+            m = key.mask
+            if isinstance(val, Arr):
+                if val.space is not t.space:
+                    raise EngineError(".loc[labels] store: value of another row space")
+                require_same_mask(it, val.mask, m, ".loc[labels] store")
+                v = val.e
+            elif is_scalar(val):
+                v = val
+            else:
+                raise EngineError(".loc[labels] store value")
+            cur = t.cols.get(col, XV(0, True))
+            t.write(it, col, scalar_ite(SV(m if m is not True else z3.BoolVal(True)), v, cur), via="loc")
             return
         if isinstance(key, slice) and key == slice(None, None, None):
             t.write(it, col, val.e if isinstance(val, Arr) else val, via="loc")
